@@ -149,11 +149,11 @@ fn assert_unchanged(w: &Writer, s: &Snap) {
     );
     // compression anchors: a stale anchor would let a later name point into
     // octets that are no longer part of the message
-    assert!(prior(w.qname) == s.qname, "[C13] failed operation leaves the QNAME anchor unchanged");
-    assert!(prior(w.most_recent_owner) == s.owner, "[C13] failed operation leaves the owner anchor unchanged");
+    assert!(prior(w.qname) == s.qname, "[C12,C13] failed operation leaves the QNAME anchor unchanged");
+    assert!(prior(w.most_recent_owner) == s.owner, "[C12,C13] failed operation leaves the owner anchor unchanged");
     assert!(
         prior(w.most_recent_name_in_rdata) == s.in_rdata,
-        "[C13] failed operation leaves the RDATA-name anchor unchanged"
+        "[C12,C13] failed operation leaves the RDATA-name anchor unchanged"
     );
 }
 
